@@ -105,6 +105,7 @@ pub fn expect_iso<O: Lbl, A: Lbl>(
         }
         Iso::Budget => {
             ctx.count("iso:budget_exhausted");
+            ctx.inconclusive("isomorphism search ran out of budget");
             false
         }
         Iso::No(why) => {
